@@ -146,8 +146,11 @@ def exec_state(df, st, emb, kind, part, variant=0):
                 return
             before = f.array.copy()
             off = L.OffLattice()
+            # a field created without a dtype takes the type of whatever it is given LATER as well: every second time the new
+            # specification is complex-valued (seeded change C02-11 remembered the dtype of the first values)
+            ukind = "complex" if (kind == "none" and obs["ok"] and sp["k"] in ("const", "array") and (variant + nv + len(n)) % 2 == 0) else kind
             try:
-                val = L.spec_value(df, sp, m, S, kind, emb, names, off, variant)
+                val = L.spec_value(df, sp, m, S, ukind, emb, names, off, variant)
             except Exception as ex:  # e.g. the library refuses to build a source field
                 raise core._tlc.MachineryError(f"cannot build value for {sp}: {ex!r}")
             try:
@@ -163,10 +166,10 @@ def exec_state(df, st, emb, kind, part, variant=0):
                     part.violation(f"C02_CellwiseSpec/{via}/{cls}/rejected/{kind}",
                                    f"a valid specification is rejected: {type(err).__name__}", wit(exc=repr(err), via=via))
                 else:
-                    bad = L.compare_array(kind, f.array, n, nv, obs["arr"], obs["extra"])
+                    bad = L.compare_array(ukind, f.array, n, nv, obs["arr"], obs["extra"])
                     if bad:
                         clause = "C02_Shape" if bad["why"] == "shape" else ("C02_FirstListedWins" if sp["k"] == "dict" else "C02_CellwiseSpec")
-                        part.violation(f"{clause}/{via}/{cls}/{bad.get('sig', 'shape')}/{kind}",
+                        part.violation(f"{clause}/{via}/{cls}/{bad.get('sig', 'shape')}/{kind}{'' if ukind == kind else '-then-complex'}",
                                        "after an update the stored array differs from the new specification", wit(diff=bad, via=via))
                     if off.pts:
                         part.violation(f"C02_CellwiseSpec/{via}/{cls}/centre-off-lattice/{_cond(emb, kind)}",
